@@ -113,35 +113,49 @@ func check(c *enum.Ctx, k kase) (nontrivial bool) {
 		var dec alphabet.Qphred
 		var pe float64
 		var line string
-		var reported alphabet.Encoding
+		var reported, origReported alphabet.Encoding
+		var origEnc byte
 		if c.Guard(k.Kind+"/panic", k, func() {
 			if k.Kind == "phred-container" {
 				p := quality.NewPhred("p", []alphabet.Qphred{alphabet.Qphred(k.V), 7}, e2)
 				p.Offset = 3
 				_ = p.QEncode(3)
+				orig := p
 				if k.Via == "clone" {
 					p = p.Copy().(*quality.Phred)
 				}
 				p.SetEncoding(e)
 				enc, dec, pe, reported = p.QEncode(3), p.QDecode(byte(b)), p.EAt(3), p.Encoding()
+				origEnc, origReported = orig.QEncode(3), orig.Encoding()
 				return
 			}
 			q := linear.NewQSeq("q", []alphabet.QLetter{{L: 'a', Q: alphabet.Qphred(k.V)}, {L: 'c', Q: 7}}, alphabet.DNA, e2)
 			q.Offset = 3
 			_ = q.QEncode(3)
 			_ = fmt.Sprintf("%q", q)
+			orig := q
 			if k.Via == "clone" {
 				q = q.Clone().(*linear.QSeq)
 			}
 			q.SetEncoding(e)
 			enc, dec, pe, reported = q.QEncode(3), q.Encode.DecodeToQphred(byte(b)), q.EAt(3), q.Encoding()
 			line = fmt.Sprintf("%q", q)
+			origEnc, origReported = orig.QEncode(3), orig.Encoding()
 		}) {
 			return true
 		}
 		hist := fmt.Sprintf("built as %s, encoded, %sSetEncoding(%s)", encNames[e2], map[string]string{"": "", "clone": "copied, "}[k.Via], encNames[e])
 		if reported != e {
 			fail(k.Kind+"/Encoding", "%s: Encoding() = %s", hist, encNames[reported])
+		}
+		if k.Via == "clone" && e2 != alphabet.Solexa {
+			// the value the copy was taken from keeps its own encoding and still encodes by it
+			if origReported != e2 {
+				fail(k.Kind+"/original/Encoding", "%s: the original now reports encoding %s, it was built as %s", hist, encNames[origReported], encNames[e2])
+			}
+			if b2 := k.V + offset(e2); printable(e2, b2) && int(origEnc) != b2 {
+				fail(k.Kind+"/original/QEncode/"+encNames[e2], "%s: the original (still %s) now encodes score %d as %d, want %d", hist, encNames[e2], k.V, origEnc, b2)
+			}
 		}
 		if int(enc) != b {
 			fail(k.Kind+"/QEncode/"+encNames[e], "%s: QEncode of score %d = %d, want %d", hist, k.V, enc, b)
@@ -169,15 +183,18 @@ func check(c *enum.Ctx, k kase) (nontrivial bool) {
 		var dec alphabet.Qsolexa
 		var pe float64
 		var back alphabet.Qsolexa
+		var origEnc byte
 		if c.Guard("solexa-container/panic", k, func() {
 			p := quality.NewSolexa("s", []alphabet.Qsolexa{alphabet.Qsolexa(k.V), 7}, alphabet.Encoding(k.Enc2))
 			p.Offset = 3
 			_ = p.QEncode(3)
+			orig := p
 			if k.Via == "clone" {
 				p = p.Copy().(*quality.Solexa)
 			}
 			p.SetEncoding(alphabet.Solexa)
 			enc, dec, pe = p.QEncode(3), p.QDecode(byte(b)), p.EAt(3)
+			origEnc = orig.QEncode(3)
 			p.SetE(4, pe)
 			back = p.At(4)
 		}) {
@@ -192,6 +209,9 @@ func check(c *enum.Ctx, k kase) (nontrivial bool) {
 		}
 		if want := 1 / (1 + math.Pow(10, float64(k.V)/10)); relErr(pe, want) > 1e-12 {
 			fail("solexa-container/EAt", "%s: EAt = %g for score %d, want %g", hist, pe, k.V, want)
+		}
+		if k.Via == "clone" && alphabet.Encoding(k.Enc2) == alphabet.Solexa && int(origEnc) != b {
+			fail("solexa-container/original/QEncode", "%s: the original (still Solexa) now encodes score %d as %d, want %d", hist, k.V, origEnc, b)
 		}
 		if int(back) != k.V {
 			fail("solexa-container/SetE", "%s: SetE(EAt) of score %d stored %d", hist, k.V, back)
